@@ -318,7 +318,11 @@ func TestC23(t *testing.T) {
 // buildMfmt builds cmd/mfmt from the tree under test.
 func buildMfmt(t *testing.T, st *vstat.Stats) string {
 	out := vstat.Scratch() + "/mfmt"
-	cmd := exec.Command("go", "build", "-o", out, "github.com/google/mtail/cmd/mfmt")
+	args := []string{"build", "-o", out}
+	if mf := os.Getenv("VERIF_MODFILE"); mf != "" {
+		args = append(args, "-modfile="+mf)
+	}
+	cmd := exec.Command("go", append(args, "github.com/google/mtail/cmd/mfmt")...)
 	cmd.Dir = "/verif/harness"
 	if b, err := cmd.CombinedOutput(); err != nil {
 		st.Inconclusive(t, "cannot build cmd/mfmt: %v\n%s", err, b)
